@@ -31,8 +31,15 @@ class Spec:
         return None
 
     def known(self, case, impl, model, what):
-        """Return (finding_id, what) if this concrete violation is a listed finding."""
-        return None
+        """Return (finding_id, what) if this concrete violation is a listed finding: an OPEN entry of
+        known_findings.json for this property that names exactly this case line.  Fixed entries suppress nothing."""
+        if not hasattr(self, "_open"):
+            self._open = {}
+            for f in pv.load_findings(self.pid):
+                if f.get("status") == "open":
+                    for c in f.get("cases", []):
+                        self._open[c] = (f["id"], f["what"])
+        return self._open.get(case)
 
     def nontrivial(self, case, impl):
         return True
